@@ -295,6 +295,16 @@ def gen_unit(rng, uid, opts):
                     st["fields"].append(("F%d" % len(st["fields"]), fp))
                     c["deps"].append(fp)
                     break
+    # a struct provider offers S and *S, built separately: let one provider function take both
+    for it in list(u.items):
+        if it["kind"] == "struct" and rng.random() < opts.get("p_both_struct_forms", 0.15):
+            sv, sp = it["outs"]
+            for c in u.items:
+                if c["kind"] == "func" and (sv in c["deps"]) != (sp in c["deps"]) and not c.get("variadic"):
+                    have, other = (sv, sp) if sv in c["deps"] else (sp, sv)
+                    k = c["deps"].index(have)
+                    c["deps"].insert(k + 1 if rng.random() < 0.5 else k, other)
+                    break
     # --- sets ---------------------------------------------------------------------------------
     arg_items = [n for n, it in enumerate(u.items) if it["kind"] == "arg"]
     other = [n for n, it in enumerate(u.items) if it["kind"] != "arg"]
